@@ -267,6 +267,178 @@ fn model_inputs() -> Vec<FeelContext> {
 
 const MODEL_INVOCABLES: &[&str] = &["D1", "D2", "D3", "Scale", "S"];
 
+/// (d) Every kind of boxed body as the logic of a knowledge model, taken out of the model as a function value (through a
+/// decision that returns it) and invoked in a scope of the caller's own: the scope text is the same before and after, the
+/// caller's names that are spelled like the parameter and like the body's entries keep their values, results repeat.
+pub fn function_value_model() -> dmn::Model {
+  let mut m = dmn::Model::new("https://verif/c13d", "c13d");
+  let p = || vec![("n".to_string(), Some("number".to_string()))];
+  let bodies: Vec<(&str, dmn::Expr)> = vec![
+    ("F1", dmn::Expr::lit("n * 2")),
+    ("F2", dmn::Expr::Context(vec![(Some("twice".into()), None, dmn::Expr::lit("n * 2")), (None, None, dmn::Expr::lit("twice + 1"))])),
+    ("F3", dmn::Expr::Context(vec![(Some("twice".into()), None, dmn::Expr::lit("n * 2")), (Some("m".into()), None, dmn::Expr::lit("twice + n"))])),
+    ("F4", dmn::Expr::Invocation("F2".into(), vec![("n".into(), dmn::Expr::lit("n + 1"))])),
+    (
+      "F5",
+      dmn::Expr::Table(dmn::Table {
+        hit_policy: "FIRST".into(),
+        aggregation: None,
+        output_label: None,
+        inputs: vec![dmn::TableInput { expr: "n".into(), type_ref: None, values: None }],
+        outputs: vec![dmn::TableOutput { name: None, type_ref: None, values: None, default: None }],
+        rules: vec![dmn::TableRule { inputs: vec!["< 3".into()], outputs: vec!["n + 1".into()] }, dmn::TableRule { inputs: vec!["-".into()], outputs: vec!["n * 10".into()] }],
+      }),
+    ),
+    ("F6", dmn::Expr::Context(vec![(Some("m".into()), None, dmn::Expr::lit("[n, n + 1]")), (None, None, dmn::Expr::lit("some n in m satisfies n > 100"))])),
+    ("F7", dmn::Expr::Relation(vec!["twice".into(), "m".into()], vec![vec![dmn::Expr::lit("n * 2"), dmn::Expr::lit("n + 1")]])),
+    ("F8", dmn::Expr::Function(vec![("m".into(), None)], Box::new(dmn::Expr::lit("n + m")))),
+    (
+      "F9",
+      dmn::Expr::Context(vec![
+        (Some("twice".into()), None, dmn::Expr::Context(vec![(Some("m".into()), None, dmn::Expr::lit("n * 2")), (None, None, dmn::Expr::lit("m + 1"))])),
+        (None, None, dmn::Expr::lit("for i in [twice, n] return i * 2")),
+      ]),
+    ),
+  ];
+  for (name, logic) in bodies {
+    let knowledge = match name {
+      "F4" => vec!["F2".to_string()],
+      _ => vec![],
+    };
+    m.bkms.push(dmn::Bkm { name: name.into(), type_ref: None, params: p(), knowledge, logic });
+    m.decisions.push(dmn::Decision { name: format!("Get{}", name), type_ref: None, requires: dmn::Requires { knowledge: vec![name.into()], ..Default::default() }, logic: Some(dmn::Expr::lit(name)) });
+  }
+  m
+}
+
+/// replay of one recorded function-value case: {"xml", "function", "call"}
+pub fn replay_function_value(case: &serde_json::Value) -> String {
+  let xml = case.get("xml").and_then(|x| x.as_str()).unwrap_or("");
+  let name = case.get("function").and_then(|x| x.as_str()).unwrap_or("");
+  let call = case.get("call").and_then(|x| x.as_str()).unwrap_or("");
+  let me = match dmntk_model::parse(xml).map_err(|e| e.to_string()).and_then(|d| dmntk_model_evaluator::ModelEvaluator::new(&d).map_err(|e| e.to_string())) {
+    Ok(me) => me,
+    Err(e) => return format!("FAIL the model does not load: {}", e),
+  };
+  let num = |i: i128| Value::Number(dmntk_feel::FeelNumber::from_i128(i));
+  let f = me.evaluate_invocable(&format!("Get{}", name), &FeelContext::default());
+  let mut ctx = FeelContext::default();
+  ctx.set_entry(&Name::from("F"), f);
+  ctx.set_entry(&Name::from("n"), num(100));
+  ctx.set_entry(&Name::from("twice"), num(7));
+  ctx.set_entry(&Name::from("m"), num(5));
+  let scope: Scope = ctx.into();
+  let before = scope.to_string();
+  let evaluator = match dmntk_feel_parser::parse_expression(&scope, call, false).map_err(|e| e.to_string()).and_then(|n| dmntk_feel_evaluator::prepare(&n).map_err(|e| e.to_string())) {
+    Ok(e) => e,
+    Err(e) => return format!("MACHINERY the call does not parse: {}", e),
+  };
+  let first = crate::rval::show_value_full(&evaluator(&scope));
+  for _ in 0..3 {
+    let v = crate::rval::show_value_full(&evaluator(&scope));
+    let after = scope.to_string();
+    if after != before {
+      return format!("FAIL `{}` leaves the caller's scope as {} but it was {}", call, after, before);
+    }
+    if v != first {
+      return format!("FAIL `{}` gives {} and then {}", call, first, v);
+    }
+  }
+  if call.starts_with('[') && call.ends_with(", m]") {
+    let tail = if call.ends_with("twice, m]") { ", 100, 7, 5]" } else { ", 100, 5]" };
+    if !first.ends_with(tail) {
+      return format!("FAIL `{}` gives {}: the names read after the invocation are not the caller's", call, first);
+    }
+  }
+  format!("PASS `{}` gives {} and leaves the scope alone", call, first)
+}
+
+fn family_function_values(run: &Run) -> (u64, u64) {
+  let xml = function_value_model().to_xml();
+  let me = match dmntk_model::parse(&xml).map_err(|e| e.to_string()).and_then(|d| dmntk_model_evaluator::ModelEvaluator::new(&d).map_err(|e| e.to_string())) {
+    Ok(me) => me,
+    Err(e) => {
+      run.violation("function-values:model-does-not-load", &format!("generated well-formed model is rejected: {}", e), json!({"engine":"dmn","xml":xml,"invocable":"","ctx":[],"expected":"(model loads)"}));
+      return (0, 0);
+    }
+  };
+  let num = |i: i128| Value::Number(dmntk_feel::FeelNumber::from_i128(i));
+  let mut cases = 0u64;
+  let mut checks = 0u64;
+  for k in 1..=9 {
+    let name = format!("F{}", k);
+    let f = me.evaluate_invocable(&format!("Get{}", name), &FeelContext::default());
+    if !matches!(f, Value::FunctionDefinition(..)) {
+      run.violation(&format!("function-values:{}:not-a-function", name), &format!("the decision returning the knowledge model {} gives {}", name, show_value(&f)), json!({"engine":"dmn","xml":xml,"invocable":format!("Get{}", name),"ctx":[],"expected":"FunctionDefinition"}));
+      continue;
+    }
+    let calls: Vec<String> = if k == 8 {
+      vec!["F(n + 1)(1)".into(), "[F(n + 1)(twice), n, twice, m]".into(), "[F(n: n + 2)(m: 1), n, m]".into()]
+    } else {
+      vec!["F(n + 1)".into(), "F(n: n + 2)".into(), "[F(n + 1), n, twice, m]".into(), "[n, F(n + 1), F(n + 2), n, twice, m]".into(), "for i in [1, 2] return [F(i), n, twice]".into()]
+    };
+    for call in calls {
+      cases += 1;
+      let mut ctx = FeelContext::default();
+      ctx.set_entry(&Name::from("F"), f.clone());
+      ctx.set_entry(&Name::from("n"), num(100));
+      ctx.set_entry(&Name::from("twice"), num(7));
+      ctx.set_entry(&Name::from("m"), num(5));
+      let scope: Scope = ctx.into();
+      let before = scope.to_string();
+      let node = match dmntk_feel_parser::parse_expression(&scope, &call, false) {
+        Ok(n) => n,
+        Err(e) => {
+          run.machinery_error(&format!("call text does not parse: {}: {}", call, e));
+          continue;
+        }
+      };
+      let evaluator = match dmntk_feel_evaluator::prepare(&node) {
+        Ok(e) => e,
+        Err(e) => {
+          run.machinery_error(&format!("call text does not prepare: {}: {}", call, e));
+          continue;
+        }
+      };
+      let first = crate::rval::show_value_full(&evaluator(&scope));
+      for round in 0..3 {
+        checks += 2;
+        let v = crate::rval::show_value_full(&evaluator(&scope));
+        let after = scope.to_string();
+        if after != before {
+          run.violation(
+            &format!("function-values:{}:scope-altered", name),
+            &format!("invoking the knowledge model {} (as a function value) by `{}` leaves the caller's scope as {} but it was {}", name, call, after, before),
+            json!({"engine":"c13","kind":"function-value","xml":xml,"function":name,"call":call}),
+          );
+          break;
+        }
+        if v != first {
+          run.violation(
+            &format!("function-values:{}:result-not-repeatable", name),
+            &format!("`{}` with the knowledge model {} gives {} and then {} (evaluation {})", call, name, first, v, round + 2),
+            json!({"engine":"c13","kind":"function-value","xml":xml,"function":name,"call":call}),
+          );
+          break;
+        }
+      }
+      // the caller's own names, read after the invocation inside the same expression
+      if call.starts_with('[') && call.ends_with(", m]") {
+        checks += 1;
+        let tail = if call.ends_with("twice, m]") { ", 100, 7, 5]" } else { ", 100, 5]" };
+        if !first.ends_with(tail) {
+          run.violation(
+            &format!("function-values:{}:callers-names-rebound", name),
+            &format!("`{}` with n = 100, twice = 7, m = 5 in the caller's scope gives {}: the names read after the invocation are not the caller's", call, first),
+            json!({"engine":"c13","kind":"function-value","xml":xml,"function":name,"call":call}),
+          );
+        }
+      }
+    }
+  }
+  (cases, checks)
+}
+
 pub fn run() {
   let run = Run::new("C13");
   let thorough = run.thorough();
@@ -436,12 +608,15 @@ pub fn run() {
   run.sample(json!({"part":"model-history","sequence":["D2(input#0)","S(input#1)","D2(input#0)"], "pristine_results": m_pristine.iter().take(6).collect::<Vec<_>>()}));
 
   let terms = c.terms.load(Ordering::Relaxed);
-  run.set("states", json!(terms + total_seqs + m_total));
+  let (fv_cases, fv_checks) = family_function_values(&run);
+  run.set("function_value_cases", json!(fv_cases));
+  run.set("function_value_checks", json!(fv_checks));
+  run.set("states", json!(terms + total_seqs + m_total + fv_cases));
   run.set("transitions", json!(c.evals.load(Ordering::Relaxed) + hist_ops.load(Ordering::Relaxed) + m_hist_ops.load(Ordering::Relaxed)));
   run.set("traces_validated_against_impl", json!(total_seqs + m_total));
   run.set("evaluations", json!(c.evals.load(Ordering::Relaxed) + hist_ops.load(Ordering::Relaxed) + m_hist_ops.load(Ordering::Relaxed)));
   run.set("distinct_nontrivial", json!(terms + total_seqs + m_total));
-  run.set("rule", json!("(a) every expression of the C01 space x 3 scope shapes x bindings: scope text compared before/after parse, prepare and three evaluations; (b) every sequence of (prepared evaluator, scope) operations up to the length bound on fresh objects; (c) every sequence of evaluate_invocable(name, input) up to the length bound on one fresh shared ModelEvaluator; all sequences are distinct by construction"));
+  run.set("rule", json!("(a) every expression of the C01 space x 3 scope shapes x bindings: scope text compared before/after parse, prepare and three evaluations; (b) every sequence of (prepared evaluator, scope) operations up to the length bound on fresh objects; (c) every sequence of evaluate_invocable(name, input) up to the length bound on one fresh shared ModelEvaluator; (d) knowledge models of every boxed body kind taken out of the model as function values and invoked in a scope of the caller's whose names are spelled like the parameter and the body's entries; all sequences are distinct by construction"));
   run.set("exhaustive", json!(true));
   run.set("scope_integrity_terms", json!(terms));
   run.set("scope_integrity_checks", json!(c.checks.load(Ordering::Relaxed)));
